@@ -8,6 +8,11 @@ import time
 
 
 def sig_of(v):
+    """coarse signature used while searching/minimising"""
+    return (v["prop"], v["clause"], v.get("coarse") or v["site"])
+
+
+def fine_sig(v):
     return (v["prop"], v["clause"], v["site"])
 
 
@@ -39,15 +44,6 @@ def _reindex(sched, keep_idx):
     for key in ("faults", "buggify"):
         if key in s:
             s[key] = [dict(f, op=new_index[f["op"]]) for f in s[key] if f["op"] in new_index]
-    if "sentinel_versions" in s:
-        sv = {}
-        for k, v in s["sentinel_versions"].items():
-            k = int(k)
-            # the map in force at old op k applies from the first kept op >= k
-            cands = [new_index[o] for o in keep_idx if o >= k]
-            if cands:
-                sv[str(min(cands))] = v
-        s["sentinel_versions"] = sv
     return s
 
 
